@@ -202,6 +202,37 @@ func findChain(cs []nfsem.TextChain, name string) (nfsem.TextChain, bool) {
 	return nfsem.TextChain{}, false
 }
 
+// namesOK: the decidable side condition of the Lean theorems, evaluated on the REAL chains:
+// chain names pairwise distinct, and no endpoint chain (computed by the real EndpointChainName)
+// is itself a dispatch chain.
+func (s *state) namesOK(h *rt.H, cs []*generictables.Chain, pfxs []string, extra []string) string {
+	seen := map[string]bool{}
+	ok := true
+	for _, c := range cs {
+		if seen[c.Name] {
+			ok = false
+		}
+		seen[c.Name] = true
+	}
+	maxLen := 28
+	if s.nft {
+		maxLen = 256
+	}
+	for _, p := range pfxs {
+		for _, n := range append(append([]string{}, extra...), s.names...) {
+			if seen[rules.EndpointChainName(p, n, maxLen)] {
+				ok = false
+			}
+		}
+	}
+	if !ok {
+		h.OracleFail("chain-name-collision", "two rendered dispatch chains share a name, or an endpoint chain name equals a dispatch chain name",
+			map[string]any{"kind": s.kind, "nft": s.nft, "names": hexAll(s.names)})
+		return " ## names-ok=0"
+	}
+	return " ## names-ok=1"
+}
+
 func (s *state) install(cs []*generictables.Chain, panicked bool, r *rules.DefaultRuleRenderer) string {
 	s.panicked = panicked
 	s.table = nil
@@ -235,7 +266,11 @@ func exec(h *rt.H, s *state, op string) string {
 		s.dflt = w[2]
 		r := renderer(s.nft, w[2], []string{"cali"})
 		cs, p := safe(func() []*generictables.Chain { return r.WorkloadDispatchChains(wlMap(s.names)) })
-		return s.install(cs, p, r)
+		out := s.install(cs, p, r)
+		if !p {
+			out += s.namesOK(h, cs, []string{"cali-fw-", "cali-tw-"}, nil)
+		}
+		return out
 	case "host":
 		s.kind, s.nft, s.dirs, s.aof = "host", w[1] == "nft", w[2], w[3] == "1"
 		s.dflt = ""
@@ -261,7 +296,11 @@ func exec(h *rt.H, s *state, op string) string {
 			}
 			return r.HostDispatchChains(eps, s.dflt, s.aof)
 		})
-		return s.install(cs, p, r)
+		out := s.install(cs, p, r)
+		if !p {
+			out += s.namesOK(h, cs, []string{"cali-fh-", "cali-th-", "cali-fhfw-", "cali-thfw-"}, []string{s.dflt})
+		}
+		return out
 	case "maps":
 		r := renderer(false, "drop", nil)
 		f, t := r.DispatchMappings(wlMap(decNames(w[1])))
